@@ -10,6 +10,7 @@
 -/
 import MitmVerif.Lemmas.C09
 import MitmVerif.Lemmas.C09Sem
+import MitmVerif.Lemmas.C09Late
 import MitmVerif.Gen.C09
 namespace MitmVerif.Props.C09
 open MitmVerif.C09
@@ -151,6 +152,47 @@ theorem final_wait_covers_transports {n : Nat} {s : St} (h : Reach n s) (hf : s.
   have := hi.wait
   exact ⟨hw, by omega⟩
 
+/-- NO hypothesis about the layer: when handle_client has returned, the client's entry and socket are gone, and every
+    upstream entry still in transports belongs to a connection the layer asked for AFTER handle_client had collected
+    the transports to wait for (`late`); everything opened before that is gone, for every schedule.  (This is what the
+    oracle asks of the real code: only what a late OpenConnection created may remain.) -/
+theorem only_late_opens_remain {n : Nat} {s : St} (h : Reach n s) (hr : s.hpc = .returned) :
+    s.centry = false ∧ s.cwopen = false ∧ ∀ c ∈ s.conns, c.entry = true → c.late = true := by
+  obtain ⟨hi, _⟩ := Reach.inv h
+  have hh := hi.h
+  unfold HInv at hh
+  rw [hr] at hh
+  exact ⟨hh.2.2.2, hh.1 hh.2.2.2, (Reach.late h).ret2 hr⟩
+
+/-- the ghost flag of `no_transports_after_return` is the disjunction of the marks: if no late open happened
+    (`lateOpen = false`) no connection is marked late — so that theorem is the special case of
+    `only_late_opens_remain` in which nothing may remain -/
+theorem late_marks_imply_lateOpen {n : Nat} {s : St} (h : Reach n s) :
+    ∀ c ∈ s.conns, c.late = true → s.lateOpen = true :=
+  (Reach.late h).flag
+
+/-- and every connection that was opened in time is settled at return: no entry, socket closed, one outcome per
+    server_connect, one server_disconnected per server_connected — again without any hypothesis -/
+theorem early_connections_settled_at_return {n : Nat} {s : St} (h : Reach n s) (hr : s.hpc = .returned) :
+    ∀ c ∈ s.conns, c.late = false →
+      c.entry = false ∧ wopen c.pc = false ∧ c.nSD + c.nSE = c.nSC ∧ c.nSX = c.nSD := by
+  intro c hc hl
+  have hci := (Reach.inv h).1.conn c hc
+  have he : c.entry = false := by
+    cases he : c.entry with
+    | false => rfl
+    | true => have := (Reach.late h).ret2 hr c hc he; rw [hl] at this; simp at this
+  exact ⟨he, hci.noopen_of_noentry he, (hci.settled_of_noentry he).2.1, (hci.settled_of_noentry he).2.2⟩
+
+/-- while handle_client waits, every entry of a connection opened in time belongs to a task it waits for -/
+theorem final_wait_covers_early_transports {n : Nat} {s : St} (h : Reach n s) (hf : s.hpc = .final) :
+    ∀ c ∈ s.conns, c.entry = true → c.late = false → hasWait c = true ∧ 0 < s.hcount := by
+  intro c hc he hl
+  have hw := (Reach.late h).fin2 hf c hc he hl
+  have : 0 < s.conns.countP hasWait := List.countP_pos_iff.mpr ⟨c, hc, hw⟩
+  have := (Reach.inv h).1.wait
+  exact ⟨hw, by omega⟩
+
 /-! ### non-vacuity -/
 
 /-- a complete run: connect, serve, peer closes, client closes, handle_client returns -/
@@ -249,7 +291,8 @@ example : (run (init 1) (queued3 ++ [.act (.S 1) .semacq])).isNone = true := by 
 
 /-- the hypothesis of `no_transports_after_return` is needed in this model: a layer that opens a connection
     while handle_client waits leaves an entry behind -/
-example : ∃ s, Reach 5 s ∧ s.hpc = .returned ∧ s.lateOpen = true ∧ (s.conns.map (·.entry)) = [true] :=
+example : ∃ s, Reach 5 s ∧ s.hpc = .returned ∧ s.lateOpen = true ∧ (s.conns.map (·.entry)) = [true] ∧
+    (s.conns.map (·.late)) = [true] :=
   ⟨_, ⟨[.act .H (.hook .cc), .act .H (.hookret .ok false), .act .H (.ev .start [.spawn]),
         .act .C .start, .act (.K 0) .start, .act (.K 0) (.hook .hk),
         .act .C (.readret .eof), .act .C (.ev .closed []), .act .C .wclose, .act .C .fin, .cb .C, .cb .C,
